@@ -1,7 +1,7 @@
 (* C01 — returned values satisfy every active hard constraint and their declared type.
    Property theorems only. *)
 From Coq Require Import ZArith List Bool Lia.
-From PV Require Import Common.Bits Rand.BV Rand.Expr Rand.Lower Rand.Typing Rand.LowerProofs.
+From PV Require Import Common.Bits Rand.BV Rand.Expr Rand.Lower Rand.Typing Rand.LowerProofs Rand.Randset Rand.RandsetProofs.
 Import ListNotations.
 Open Scope Z_scope.
 
@@ -37,6 +37,7 @@ Theorem C01_corner_rel_signed_refuted :
   wt G2 (-1) false e = false /\
   sem G2 rho (-1) false e = Some (1, 1) /\ bv_eval rho (lower_e G2 B2 (-1) e) = Some (1, 0).
 Proof. vm_compute. repeat split; reflexivity. Qed.
+Print Assumptions C01_corner_rel_signed_refuted.
 (* (c2) (~u) == 250 with an 8-bit unsigned u = 5: the code inverts at 8 bits, then zero-extends *)
 Theorem C01_corner_not_refuted :
   let e := EBin Eq (ENot (EField 2)) (ELit 250 true 32) in
@@ -44,6 +45,7 @@ Theorem C01_corner_not_refuted :
   wt G2 (-1) false e = false /\
   sem G2 rho (-1) false e = Some (1, 0) /\ bv_eval rho (lower_e G2 B2 (-1) e) = Some (1, 1).
 Proof. vm_compute. repeat split; reflexivity. Qed.
+Print Assumptions C01_corner_not_refuted.
 (* (c3) u64 > -1 : a negative Python literal extended beyond 32 bits in an unsigned comparison *)
 Theorem C01_corner_literal_refuted :
   let G := [mkF 40 false] in
@@ -52,6 +54,7 @@ Theorem C01_corner_literal_refuted :
   wt G (-1) false e = false /\
   sem G rho (-1) false e = Some (1, 1) /\ bv_eval rho (lower_e G [mkFB true 0] (-1) e) = Some (1, 0).
 Proof. vm_compute. repeat split; reflexivity. Qed.
+Print Assumptions C01_corner_literal_refuted.
 
 (* non-vacuity: a well-formed program and an assignment on which it holds / fails *)
 Example C01_example :
@@ -85,3 +88,21 @@ Theorem C01_enum_values_declared : forall G B enums rho sigma stmts id b vals,
   In (readback G B rho sigma id) vals.
 Proof. exact solve_enum_sound. Qed.
 Print Assumptions C01_enum_values_declared.
+
+(* the values of a call are written rand set by rand set, each set from its own solver instance (Rand/Randset.v): the
+   assignment a call ends with takes every field from the solution of the set that holds it, and satisfies every
+   statement of the call as soon as every set's solution satisfies that set's statements *)
+Theorem C01_values_come_from_the_fields_own_rand_set :
+  forall (V : Type) stmts (envs : list (nat -> V)) dflt i r e f,
+    nth_error (build stmts) i = Some r -> nth_error envs i = Some e -> In f (rs_fields r) ->
+    assemble (build stmts) envs dflt f = e f.
+Proof. exact assemble_agrees. Qed.
+Print Assumptions C01_values_come_from_the_fields_own_rand_set.
+Theorem C01_rand_set_solutions_satisfy_every_statement :
+  forall (V : Type) (holds : (nat -> V) -> nat -> bool) stmts (envs : list (nat -> V)) dflt,
+    (forall k refs e1 e2, nth_error stmts k = Some refs -> (forall f, In f refs -> e1 f = e2 f) -> holds e1 k = holds e2 k) ->
+    length envs = length (build stmts) ->
+    (forall i r e k, nth_error (build stmts) i = Some r -> nth_error envs i = Some e -> In k (rs_stmts r) -> holds e k = true) ->
+    forall k, (k < length stmts)%nat -> holds (assemble (build stmts) envs dflt) k = true.
+Proof. exact compositional_sound. Qed.
+Print Assumptions C01_rand_set_solutions_satisfy_every_statement.
